@@ -107,8 +107,41 @@ def keep(i, prop, needs):
     print("kept", i, "detected by", meta["detected_by"])
 
 
+def matrix(repo):
+    """applies every kept patch to the repository copy `repo`, runs ALL quick checks, records who reports"""
+    env = dict(os.environ)
+    if repo != "/repo":
+        ct = os.path.join(HERE, "mc", "Cargo.toml")
+        t = open(ct).read().replace('path = "/repo/kiki"', f'path = "{repo}/kiki"')
+        open(ct, "w").write(t)
+        env["VERIF_REPO"] = repo
+    out_path = os.path.join(HERE, "seeded", "matrix.json")
+    out = json.load(open(out_path)) if os.path.exists(out_path) else {}
+    ids = [f"C{n:02d}" for n in range(1, 19)]
+    for d in sorted(os.listdir(os.path.join(HERE, "seeded"))):
+        p = os.path.join(HERE, "seeded", d, "patch.diff")
+        if not os.path.exists(p) or d in out:
+            continue
+        a = sh(f"git -C {repo} apply {p}")
+        if a.returncode != 0:
+            print(d, "does not apply", a.stderr[:200]); continue
+        row = {}
+        try:
+            for c in ids:
+                t0 = time.time()
+                r = subprocess.run([os.path.join(HERE, "check"), c, "quick"], text=True, capture_output=True, env=env)
+                row[c] = {"exit": r.returncode, "wall_s": round(time.time() - t0, 1)}
+                print(d, c, r.returncode, flush=True)
+        finally:
+            sh(f"git -C {repo} checkout -- .")
+        out[d] = row
+        json.dump(out, open(out_path, "w"), indent=1, sort_keys=True)
+
+
 if __name__ == "__main__":
     a = sys.argv
+    if len(a) == 4 and a[1] == "matrix" and a[2] == "--repo":
+        matrix(a[3]); sys.exit(0)
     if len(a) >= 5 and a[1] == "verify" and a[3] == "--": verify(a[2], " ".join(a[4:]))
     elif len(a) == 4 and a[1] == "detect": detect(a[2], a[3])
     elif len(a) == 5 and a[1] == "keep": keep(a[2], a[3], a[4])
